@@ -124,10 +124,13 @@ class InstrumentedAsyncServer:
             elif isinstance(self.auth, list):
                 authenticated = client_auth in self.auth
             else:
-                if asyncio.iscoroutinefunction(self.auth):
-                    authenticated = await self.auth(client_auth)
-                else:
+                try:
                     authenticated = self.auth(client_auth)
+                    if asyncio.iscoroutine(authenticated):
+                        authenticated = await authenticated
+                except Exception:
+                    self.sio.logger.exception('admin auth function failed')
+                    authenticated = False
             if not authenticated:
                 raise ConnectionRefusedError('authentication failed')
 
